@@ -810,6 +810,8 @@ impl SnapshotAccumulator {
         use blake3::Hasher;
 
         let mut hasher = Hasher::new();
+        // Same domain separation prefix as `crate::snapshot::compute_state_root`.
+        hasher.update(crate::domain::STATE_ROOT_V1);
 
         // Root binding
         hasher.update(&root.warp_id.0);
